@@ -1,36 +1,46 @@
 #!/usr/bin/env python3
-"""Apply every kept seeded change to /repo in turn, run the relevant quick checks, record which caught it, undo.
+"""Apply every kept seeded change to a SCRATCH COPY of /repo (never to /repo itself), run the relevant quick checks against
+the copy (VERIF_REPO_ROOT), replay the first reported violation with and without the change, record the outcome in meta.json.
 usage: tools/run_seeds.py [name-substring]"""
-import json, subprocess, sys
+import json, os, shutil, subprocess, sys, tempfile
 from pathlib import Path
 ROOT = Path(__file__).resolve().parent.parent
-EXTRA = {"C20": ["C07", "C20"], "C04": ["C04", "C16"], "C05": ["C05", "C18"], "C01": ["C01"], "C06": ["C06"], "C13": ["C13"],
-         "C03": ["C03"], "C19": ["C19", "C02"]}
+EXTRA = {"C20": ["C07", "C20"], "C04": ["C04", "C16"], "C05": ["C05", "C18"], "C19": ["C19", "C02"]}
 flt = sys.argv[1] if len(sys.argv) > 1 else ""
-status = subprocess.run(["git", "-C", "/repo", "status", "--porcelain"], capture_output=True, text=True).stdout.strip()
-if status:
-    sys.exit("refusing: /repo has uncommitted changes")
 for d in sorted((ROOT / "seeded").iterdir()):
     if flt not in d.name or not (d / "patch.diff").exists():
         continue
     meta = json.loads((d / "meta.json").read_text())
     prop = meta["property"]
-    r = subprocess.run(["git", "-C", "/repo", "apply", "--3way", str(d / "patch.diff")], capture_output=True, text=True)
-    if r.returncode != 0:
-        subprocess.run(["git", "-C", "/repo", "checkout", "HEAD", "--", "."])
-        print(f"{d.name}: PATCH DOES NOT APPLY: {r.stderr[-200:]}")
-        meta["caught_by"] = "patch no longer applies to /repo HEAD"
+    work = Path(tempfile.mkdtemp(prefix="seedrun-"))
+    try:
+        subprocess.run(["git", "-C", "/repo", "worktree", "add", "--detach", str(work / "repo"), "HEAD"], capture_output=True, check=True)
+        r = subprocess.run(["git", "-C", str(work / "repo"), "apply", "--3way", str(d / "patch.diff")], capture_output=True, text=True)
+        if r.returncode != 0:
+            print(f"{d.name}: PATCH DOES NOT APPLY: {r.stderr[-200:]}")
+            meta["caught_by"] = "patch no longer applies to /repo HEAD"
+            continue
+        env = dict(os.environ, VERIF_REPO_ROOT=str(work / "repo"))
+        caught = {}
+        for chk in EXTRA.get(prop, [prop]):
+            shutil.rmtree(ROOT / "replays", ignore_errors=True)
+            o = subprocess.run([str(ROOT / "check"), chk, "--tier", "quick"], capture_output=True, text=True, cwd=str(ROOT), env=env)
+            lines = [l for l in o.stdout.splitlines() if l.startswith("VIOLATION")]
+            sigs = sorted({l.split("#", 1)[1].strip().split(" (")[0] for l in lines})
+            entry = {"rc": o.returncode, "signatures": sigs[:6]}
+            if lines:
+                rp = lines[0].split("replay=")[1].split()[0]
+                a = subprocess.run([str(ROOT / "check"), chk, "--replay", rp], capture_output=True, text=True, cwd=str(ROOT), env=env)
+                b = subprocess.run([str(ROOT / "check"), chk, "--replay", rp], capture_output=True, text=True, cwd=str(ROOT))
+                entry["replay_rc_with_change"] = a.returncode
+                entry["replay_rc_on_unchanged_repo"] = b.returncode
+            caught[chk] = entry
+        meta["caught_by"] = caught
+        meta["caught"] = any(v["rc"] == 1 for v in caught.values())
+        print(f"{d.name}: " + "; ".join(f"{k} rc={v['rc']} replay={v.get('replay_rc_with_change')}/{v.get('replay_rc_on_unchanged_repo')} {v['signatures'][:2]}" for k, v in caught.items()))
+    finally:
         (d / "meta.json").write_text(json.dumps(meta, indent=1))
-        continue
-    caught = {}
-    for chk in EXTRA.get(prop, [prop]):
-        o = subprocess.run([str(ROOT / "check"), chk, "--tier", "quick"], capture_output=True, text=True, cwd=str(ROOT))
-        sigs = sorted({l.split("#", 1)[1].strip().split(" (")[0] for l in o.stdout.splitlines() if l.startswith("VIOLATION")})
-        caught[chk] = {"rc": o.returncode, "signatures": sigs[:6]}
-    subprocess.run(["git", "-C", "/repo", "checkout", "HEAD", "--", "."])
-    subprocess.run(["git", "-C", "/repo", "reset", "-q"])
-    meta["caught_by"] = {k: v for k, v in caught.items()}
-    meta["caught"] = any(v["rc"] == 1 for v in caught.values())
-    (d / "meta.json").write_text(json.dumps(meta, indent=1))
-    print(f"{d.name}: " + "; ".join(f"{k} rc={v['rc']} {v['signatures'][:2]}" for k, v in caught.items()))
-subprocess.run(["rm", "-rf", str(ROOT / "replays")])
+        subprocess.run(["git", "-C", "/repo", "worktree", "remove", "--force", str(work / "repo")], capture_output=True)
+        shutil.rmtree(work, ignore_errors=True)
+shutil.rmtree(ROOT / "replays", ignore_errors=True)
+print("NOTE: evidence files were rewritten by these runs against scratch copies: re-run tools/runall.sh on the unchanged tree before committing evidence")
